@@ -50,6 +50,83 @@ M('c14_stats_tree_first', 'C14', 'cell_type_mapper/diff_exp/precompute.py',
   "        out_file.create_dataset('n_cells', shape=(n_clusters,), dtype=int)",
   "        out_file.create_dataset('n_cells', shape=(n_clusters,), dtype=int)\n        out_file.create_dataset('taxonomy_tree', data=b'{}')")
 
+# ---- C01 ------------------------------------------------------------------------------------
+M('c01_name_chunk_off_by_one', 'C01', 'cell_type_mapper/type_assignment/election.py',
+  "name_chunk = query_cell_names[r0:r1]", "name_chunk = query_cell_names[r0+1:r1+1] + query_cell_names[r0:r0+1]")
+M('c01_no_reorder', 'C01', 'cell_type_mapper/type_assignment/election_runner.py',
+  "    result = re_order_blob(\n        results_blob=result,\n        query_path=query_h5ad_path)\n", "")
+M('c01_backfill_flag', 'C01', 'cell_type_mapper/taxonomy/taxonomy_tree.py',
+  "                new_data['directly_assigned'] = False\n", "")
+M('c01_prev_assigned_key', 'C01', 'cell_type_mapper/type_assignment/election.py',
+  "                previously_assigned[child_level][celltype] = assigned_this",
+  "                previously_assigned[child_level][celltype] = assigned_this if idx > 0 else chosen_idx")
+# ---- C03 ------------------------------------------------------------------------------------
+M('c03_aggregate_sum', 'C03', 'cell_type_mapper/type_assignment/election.py',
+  "            prob *= cell[level]['bootstrapping_probability']",
+  "            prob = min(1.0, 0.5*(prob + cell[level]['bootstrapping_probability']))")
+M('c03_runner_up_zero_votes', 'C03', 'cell_type_mapper/type_assignment/election.py',
+  " for this in r_up if this[1]]", " for this in r_up]", count=3)
+M('c03_fraction_denominator', 'C03', 'cell_type_mapper/type_assignment/election.py',
+  "    vote_fractions = votes / bootstrap_iteration", "    vote_fractions = votes / max(1, bootstrap_iteration - 1)")
+
+# ---- C02 ------------------------------------------------------------------------------------
+M('c02_with_replacement', 'C02', 'cell_type_mapper/type_assignment/election.py',
+  "chosen_idx = rng.choice(marker_idx, n_bootstrap, replace=False)",
+  "chosen_idx = rng.choice(marker_idx, n_bootstrap, replace=True)")
+M('c02_floor_sample_size', 'C02', 'cell_type_mapper/type_assignment/election.py',
+  "    n_bootstrap = np.round(bootstrap_factor*n_markers).astype(int)",
+  "    n_bootstrap = np.floor(bootstrap_factor*n_markers).astype(int)")
+M('c02_query_cols_unsorted', 'C01', 'cell_type_mapper/type_assignment/marker_cache_v2.py',
+  "                these_query = these_query[sorted_dex]\n", "")
+M('c02_loser_wins', 'C02', 'cell_type_mapper/type_assignment/election.py',
+  "    sorted_by_votes = np.argsort(votes, axis=1)[:, -1::-1]",
+  "    sorted_by_votes = np.argsort(votes, axis=1, kind='stable')")
+M('c02_all_leaves', 'C02', 'cell_type_mapper/type_assignment/election.py',
+  "        corr_sum[query_idx, nearest_neighbors] += corr_values",
+  "        corr_sum[query_idx, nearest_neighbors] += np.abs(corr_values)")
+# ---- C08 ------------------------------------------------------------------------------------
+M('c08_farthest_first', 'C08', 'cell_type_mapper/type_assignment/marker_cache_v2.py',
+  "                for ancestor_level in reverse_hier:", "                for ancestor_level in taxonomy_tree.hierarchy:")
+M('c08_stop_late', 'C08', 'cell_type_mapper/type_assignment/marker_cache_v2.py',
+  "                                    set(new_markers))) >= min_markers:",
+  "                                    set(new_markers))) > min_markers:")
+M('c08_unknown_gene_tolerated', 'C08', 'cell_type_mapper/type_assignment/marker_cache_v2.py',
+  "    if len(missing_reference_markers) > 0:", "    if len(missing_reference_markers) > 1000:")
+# ---- C15 ------------------------------------------------------------------------------------
+M('c15_three_decimals', 'C15', 'cell_type_mapper/utils/output_utils.py',
+  "float_format='%.4f'", "float_format='%.3f'")
+M('c15_alias_is_name', 'C15', 'cell_type_mapper/utils/output_utils.py',
+  "                            name_key='alias')", "                            name_key='name')")
+M('c15_keep_cells', 'C15', 'cell_type_mapper/cli/from_specified_markers.py',
+  "        data=json.loads(taxonomy_tree.to_str(drop_cells=True)))", "        data=json.loads(taxonomy_tree.to_str(drop_cells=False)))")
+
+# ---- C06 / C07 / C17 ---------------------------------------------------------------------------
+M('c06_chunk_wide_cpm', 'C06', 'cell_type_mapper/cell_by_gene/utils.py',
+  "    row_sums = np.sum(data, axis=1)\n    denom = np.where(row_sums > 0.0, row_sums, 1.)\n    cpm = data.transpose()/denom",
+  "    row_sums = np.sum(data, axis=1)\n    denom = np.where(row_sums > 0.0, row_sums, 1.)\n    denom = np.maximum(denom, np.median(denom))\n    cpm = data.transpose()/denom")
+M('c06_chunk_mean_subtracted', 'C06', 'cell_type_mapper/type_assignment/election.py',
+  "        bootstrap_query = query_gene_data[:, chosen_idx]",
+  "        bootstrap_query = query_gene_data[:, chosen_idx] + (query_gene_data[:1, chosen_idx] > 3.0)")
+M('c07_negative_accepted', 'C07', 'cell_type_mapper/type_assignment/election_runner.py',
+  "        if not is_ge_zero[0]:", "        if False and not is_ge_zero[0]:")
+M('c07_cpm_factor', 'C07', 'cell_type_mapper/cell_by_gene/utils.py',
+  "    cpm = 1.0e6*cpm\n    return cpm.transpose()", "    cpm = 1.0e5*cpm\n    return cpm.transpose()")
+M('c07_columns_by_position', 'C07', 'cell_type_mapper/type_assignment/marker_cache_v2.py',
+  "                these_query.append(query_name_to_int[gene])",
+  "                these_query.append(min(len(query_gene_names)-1, reference_name_to_int[gene]))")
+M('c17_flatten_drops_root_list', 'C17', 'cell_type_mapper/cli/from_specified_markers.py',
+  "            if k not in ('log', 'metadata'):", "            if k not in ('log', 'metadata', 'None'):")
+M('c08_missing_ancestor_gets_root_gene', 'C08', 'cell_type_mapper/type_assignment/marker_cache_v2.py',
+  "                        if ancestor_str not in marker_lookup:\n                            continue",
+  "                        if ancestor_str not in marker_lookup:\n                            new_markers = new_markers.union(set(marker_lookup.get('None', [])[:1]))\n                            continue")
+M('c17_markers_validated_on_full_tree', 'C17', 'cell_type_mapper/cli/from_specified_markers.py',
+  "    if config['drop_level'] is not None:\n        if config['drop_level'] in taxonomy_tree.hierarchy:\n            taxonomy_tree = taxonomy_tree.drop_level(config['drop_level'])\n",
+  "    full_tree_for_markers = taxonomy_tree\n    if config['drop_level'] is not None:\n        if config['drop_level'] in taxonomy_tree.hierarchy:\n            taxonomy_tree = taxonomy_tree.drop_level(config['drop_level'])\n")
+MUTANTS['c17_markers_validated_on_full_tree']['extra'] = [(
+  'cell_type_mapper/cli/from_specified_markers.py',
+  "        log=log,\n        taxonomy_tree=taxonomy_tree,\n        min_markers=config['type_assignment']['min_markers'])",
+  "        log=log,\n        taxonomy_tree=(full_tree_for_markers if not config['flatten'] else taxonomy_tree),\n        min_markers=config['type_assignment']['min_markers'])")]
+
 
 def run_mutant(name, tier='quick'):
     m = MUTANTS[name]
@@ -66,6 +143,15 @@ def run_mutant(name, tier='quick'):
         return {'name': name, 'status': 'PATTERN-NOT-FOUND(%d)' % text.count(m['old'])}
     with open(fp, 'w') as f:
         f.write(text.replace(m['old'], m['new']))
+    for (p2, old2, new2) in m.get('extra', []):
+        fp2 = os.path.join(src, p2)
+        with open(fp2) as f:
+            t2 = f.read()
+        if t2.count(old2) != 1:
+            shutil.rmtree(scratch, ignore_errors=True)
+            return {'name': name, 'status': 'EXTRA-PATTERN-NOT-FOUND(%d)' % t2.count(old2)}
+        with open(fp2, 'w') as f:
+            f.write(t2.replace(old2, new2))
     env = dict(os.environ, VERIF_REPO_SRC=src, VERIF_SCRATCH=os.path.join(scratch, 'run'),
                VERIF_EVIDENCE_DIR=os.path.join(scratch, 'evidence'),
                VERIF_REPLAY_DIR=os.path.join(scratch, 'replays'), VERIF_NO_MINIMISE='1')
